@@ -21,7 +21,7 @@
     "all centre hydrogens explicit" branch (default mode: _strip_explicit_h, hydrogen expansion, _explicit_h). *)
 From Coq Require Import List NArith ZArith Bool Permutation.
 From SK Require Import lib.Mono model.C06_Model lib.C06_Spec model.C11_Model.
-From SK Require Import lib.Tok lib.LGraph model.C03_Model model.C04_Model model.C04_Reactor proof.C04_Any proof.C04_Check proof.C04_Proof proof.C04_DefaultProof proof.C04_Engine proof.C04_Prune proof.C04_Examples proof.C04_Object proof.C04_Chain proof.C04_Glue proof.C04_Template proof.C04_Fold proof.C04_Default proof.C04_Explicit proof.C04_DefaultEnd proof.C04_DefaultChain proof.C04_CompBt proof.C03_Spec proof.C04_Total proof.C04_TotalDefault proof.C04_TotalEnd proof.C04_TotalExamples proof.C04_ObjectExamples.
+From SK Require Import lib.Tok lib.LGraph model.C03_Model model.C04_Model model.C04_Reactor proof.C04_Any proof.C04_Check proof.C04_Proof proof.C04_DefaultProof proof.C04_Engine proof.C04_Prune proof.C04_Examples proof.C04_Object proof.C04_Chain proof.C04_Glue proof.C04_Template proof.C04_Fold proof.C04_Default proof.C04_Explicit proof.C04_DefaultEnd proof.C04_DefaultChain proof.C04_CompBt proof.C03_Spec proof.C04_Total proof.C04_TotalDefault proof.C04_TotalEnd proof.C04_TotalAny proof.C04_MonoMatch proof.C04_DefaultChainTotal proof.C04_DefaultNonneg proof.C04_TotalExamples proof.C04_ObjectExamples.
 Import ListNotations.
 Local Open Scope Z_scope.
 
@@ -492,7 +492,6 @@ Theorem C04_own_comp_default : forall (enum : list N -> list N -> list C06_Model
   default_okb (if invert then H else G) (if invert then G else H) (template core invert G H) = true ->
   (core = true -> centre_carries (its_construct G H) = true) ->
   forall (rc : its) (l r : molg), rule_of core invert G H = Some (rc, l, r) ->
-  forallb (fun p : N * mnode => 0 <=? m_hc (snd p)) (gnodes l) = true ->
   oracle_ok enum (tr_host (substrate invert G H)) (tr_pat l) ->
   (0 <? length (comps (tr_pat l)))%nat && (length (comps (tr_pat l)) <? length (comps (tr_host (substrate invert G H))))%nat = false ->
   ((length (comps (tr_host (substrate invert G H))) <? length (comps (tr_pat l)))%nat = true \/ id_separatingb (tr_host (substrate invert G H)) (tr_pat l) = true) ->
@@ -501,7 +500,7 @@ Theorem C04_own_comp_default : forall (enum : list N -> list N -> list C06_Model
     exists (ms : list C03_Model.mapping) (y : C03_Model.mapping) (T' : its),
       compute_mappings (api_engine enum) o (substrate invert G H) (rc, l, r) = Some ms /\ In y ms /\
       glue (substrate invert G H) (rc) y = Some T' /\ regen_exact T' (substrate invert G H) (h_to_implicit_host (if invert then G else H)) = true.
-Proof. exact own_comp_default. Qed.
+Proof. exact own_comp_default_final. Qed.
 Print Assumptions C04_own_comp_default.
 
 Theorem C04_own_bt_default : forall (enum : list N -> list N -> list C06_Model.mapping) (core invert : bool) (G H : hostg),
@@ -509,7 +508,6 @@ Theorem C04_own_bt_default : forall (enum : list N -> list N -> list C06_Model.m
   default_okb (if invert then H else G) (if invert then G else H) (template core invert G H) = true ->
   (core = true -> centre_carries (its_construct G H) = true) ->
   forall (rc : its) (l r : molg), rule_of core invert G H = Some (rc, l, r) ->
-  forallb (fun p : N * mnode => 0 <=? m_hc (snd p)) (gnodes l) = true ->
   oracle_ok enum (tr_host (substrate invert G H)) (tr_pat l) ->
   ((0 <? length (comps (tr_pat l)))%nat && (length (comps (tr_pat l)) <? length (comps (tr_host (substrate invert G H))))%nat = true \/ (length (comps (tr_host (substrate invert G H))) <? length (comps (tr_pat l)))%nat = true \/ id_separatingb (tr_host (substrate invert G H)) (tr_pat l) = true) ->
   exists T0 : N, forall (T : N) (o : ropts), (T0 <= T)%N ->
@@ -517,7 +515,7 @@ Theorem C04_own_bt_default : forall (enum : list N -> list N -> list C06_Model.m
     exists (ms : list C03_Model.mapping) (y : C03_Model.mapping) (T' : its),
       compute_mappings (api_engine enum) o (substrate invert G H) (rc, l, r) = Some ms /\ In y ms /\
       glue (substrate invert G H) (rc) y = Some T' /\ regen_exact T' (substrate invert G H) (h_to_implicit_host (if invert then G else H)) = true.
-Proof. exact own_bt_default. Qed.
+Proof. exact own_bt_default_final. Qed.
 Print Assumptions C04_own_bt_default.
 
 (** from its_list to smarts_list, for ANY reactor (engine, options, substrate, rule -- both hydrogen modes, every strategy): if
@@ -571,3 +569,58 @@ Theorem C04_identity_default_end_total : forall (core invert : bool) (G H : host
     regen_folded T' (if invert then H else G) (if invert then G else H) = true.
 Proof. exact default_identity_end_total. Qed.
 Print Assumptions C04_identity_default_end_total.
+
+(** * the default mode through the whole reactor with NO premise about _explicit_h *)
+
+(** _explicit_h returns on the ITS glued from a default-mode rule along ANY valid match onto ANY substrate: for a template [tpl]
+    that describes a pair (A, B) written the default-mode way, its prepared rule (rc, l, r), any substrate [host], any mapping [y]
+    the reactor's predicates accept on the rule ([match_rcb]) and the ITS [T] glued along it -- if the template's hydrogens
+    satisfy [valence_okb].  (_explicit_h only looks at the matched atoms: they carry the rule's hydrogen changes and pair ids
+    whatever the substrate is.)  So a prepared own template never makes its_list raise StopIteration, on any molecule. *)
+Theorem C04_any_match_explicit_h_total : forall (A B : hostg) (tpl rc : its) (l r : molg) (host : hostg)
+    (y : C03_Model.mapping) (T : its),
+  pair_wf A B -> describes A B tpl -> default_okb A B tpl = true ->
+  synrule tpl true = Some (rc, l, r) -> wf_rcb rc = true ->
+  match_rcb host rc y = true -> glue host rc y = Some T -> valence_okb tpl rc = true ->
+  explicit_h T <> None.
+Proof. exact any_match_total. Qed.
+Print Assumptions C04_any_match_explicit_h_total.
+
+(** what the search engine returns is a valid match of the RULE: a monomorphism of the translated pattern into the translated
+    substrate (C06's specification [is_mono] on [tr_host] / [tr_pat]) passes the reactor's predicates on the rule's reactant side,
+    when the pattern is the rule's reactant side in both directions ([left_of], [left_onto]: true for the default-mode
+    preparation, [default_left_of] / [default_left_onto], and trivially in implicit mode), the rule's bonds join its own atoms and
+    no hydrogen count is negative.  (The converse, a valid match is a monomorphism, is what C04_identity_among_raw uses.) *)
+Theorem C04_engine_match_is_rule_match : forall (host : hostg) (rc : its) (l : molg) (y : C03_Model.mapping),
+  wf_hostb host = true -> (forall n a, label host n = Some a -> 0 <= a_hc a) ->
+  wf_rcb rc = true -> (forall u v x, In (u, v, x) (gedges rc) -> In u (node_ids rc) /\ In v (node_ids rc)) ->
+  left_of rc l -> left_onto rc l -> (forall k la, label l k = Some la -> 0 <= m_hc la) ->
+  is_mono (tr_host host) (tr_pat l) y ->
+  match_rcb host rc y = true.
+Proof. exact mono_is_match. Qed.
+Print Assumptions C04_engine_match_is_rule_match.
+
+(** PARTIAL only with respect to RDKit and the H2 / H+ re-match path: the default (explicit-hydrogen) mode through the whole
+    reactor object for the exhaustive strategy.  Under the hypotheses of C04_identity_glue_default, the static boolean
+    [own_valence_okb], C06's VF2 contract for the one enumeration and a threshold that is not exceeded (the pattern counts are
+    bond counts, hence not negative: default_pattern_nonneg): a fresh reactor -- engine call, pruning by the rule's automorphisms, _glue_graph on EVERY kept mapping, _explicit_h
+    over the whole list (which raises on none of them: every kept mapping is a monomorphism the engine returned, hence a valid
+    match of the rule, and C04_any_match_explicit_h_total applies) -- returns an its_list that contains an ITS which
+    decomposes to the reaction in implicit-hydrogen normal form.  Supersedes C04_in_results_engine_default_partial (whose
+    premise [crashed = false] is now proved).  With C04_in_results_engine_partial: both branches of the precondition,
+    strategy ALL, up to RDKit. *)
+Theorem C04_in_results_engine_default : forall (enum : list N -> list N -> list C06_Model.mapping)
+    (rematch : nat -> hostg -> molg -> list C03_Model.mapping) (core invert : bool) (G H : hostg) (thr : option N),
+  pair_wfb G H = true -> mode_E G H = true ->
+  default_okb (if invert then H else G) (if invert then G else H) (template core invert G H) = true ->
+  (core = true -> centre_carries (its_construct G H) = true) ->
+  own_valence_okb core invert G H = true ->
+  forall (rc : its) (l r : molg),
+  rule_of core invert G H = Some (rc, l, r) ->
+  vf2_contract enum (tr_host (substrate invert G H)) (tr_pat l) (node_ids (tr_host (substrate invert G H))) (node_ids (tr_pat l)) ->
+  (lenN (enum (node_ids (tr_host (substrate invert G H))) (node_ids (tr_pat l))) <= dflt DEFAULT_THRESHOLD thr)%N ->
+  exists (gs : list its) (T' : its),
+    fst (read_its (api_engine enum) rematch (own_opts invert true (SMember 0%N) thr false) (substrate invert G H) (rc, l, r) fresh) = Some gs /\
+    In T' gs /\ regen_folded T' (if invert then H else G) (if invert then G else H) = true.
+Proof. exact default_chain_final. Qed.
+Print Assumptions C04_in_results_engine_default.
